@@ -45,7 +45,18 @@ for d in sorted(glob.glob('/verif/seeded/*/')):
     ok = c.get('demo_passes_without_change') and c.get('existing_tests_pass_with_change') and c.get('demo_fails_with_change')
     rows.append("| `%s` | %s | %s %s | %s | %s |" % (name, m.get('property'), summ, NOTES.get(name, ''), 'yes' if ok else 'NO', ', '.join(c.get('detected_by', [])) or '(missed)'))
 t = "| seeded change | property | what it does | confirmed | caught by (quick tier) |\n|---|---|---|---|---|\n" + "\n".join(rows)
-t += "\n\nAll %d confirmed changes are caught by the quick tier of the check of their own property (several also by neighbouring checks).\n" % len(rows)
+own, other = 0, []
+for d in sorted(glob.glob('/verif/seeded/*/')):
+    m = json.load(open(d + 'meta.json'))
+    det = m['confirmed'].get('detected_by', [])
+    if m.get('property') in det:
+        own += 1
+    elif det:
+        other.append("`%s` (%s)" % (os.path.basename(d.rstrip('/')), ", ".join(det)))
+t += ("\n\nAll %d confirmed changes raise a VIOLATION in the quick tier: %d in the check of the property they were written against "
+      "(several also in neighbouring checks), %d only in the check of a neighbouring property, where the changed behaviour is the one that "
+      "property speaks about: %s. (The `caught by` column lists the checks that were run against the change and raised the alarm, not every "
+      "check that would.)\n" % (len(rows), own, len(other), "; ".join(other) or "-"))
 p = '/verif/DESIGN.md'
 s = open(p).read()
 if '<!-- SEEDED:BEGIN -->' in s:
